@@ -421,7 +421,7 @@ def run(ctx):
     nspawn, per = ctx.n(3, 12), 4
     for j in range(nspawn):
         check_batch(ctx, [retag(gen(ctx.rng), f"{j}x{k}") for k in range(per)], True, pending)
-    for _ in range(ctx.n(1200, 30000)):
+    for _ in range(ctx.n(1200, 15000)):
         r = ctx.rng.random()
         check_batch(ctx, [gen(ctx.rng, "process" if r < 0.85 else "plain" if r < 0.93 else "none")], False, pending)
     lines, owners = [], []
